@@ -67,6 +67,16 @@ structure CertOut where
   ok : Bool
   text : String
 
+/-- the tolerance-proof extremality certificate (`Cert.extremalDeflated`, sound for approximate eigenvectors:
+    `Proofs/Inertia.extremalDeflated_sound`) at `σ = min lam + εs`, retried once with a doubled slack -/
+def robustExtremal {n d : Nat} (B : Mat n n Rat) (V : Mat n d Rat) (lam : Vec d Rat) (scale εrel : Rat) : String :=
+  let lmin := Cert.minVec lam
+  let εs := εrel * scale
+  let tryAt (σ : Rat) : Bool :=
+    let c : DVec d Rat := DVec.ofFn fun j => (if σ < lam j then 2 * (lam j - σ) else 0) + εs
+    Cert.extremalDeflated B V c.get σ
+  if tryAt (lmin + εs) then "ok" else if tryAt (lmin + 2 * εs) then "ok2" else "inconclusive"
+
 /-- certificate of `(V, lam)` as a top-`d` eigensystem of `B`, tolerances relative to `scale`;
     retries the inertia with a slightly larger shift if the exact elimination hits a zero pivot -/
 def certify {n d : Nat} (B : Mat n n Rat) (V : Mat n d Rat) (lam : Vec d Rat)
